@@ -29,6 +29,7 @@ type ProcSpec struct {
 	LiveProbe     bool              `json:"live_probe,omitempty"`
 	ReadyLine     string            `json:"ready_line,omitempty"`
 	BadDir        bool              `json:"bad_dir,omitempty"`
+	WorkingDir    string            `json:"working_dir,omitempty"`
 	Replicas      int               `json:"replicas,omitempty"`
 	Signal        int               `json:"signal,omitempty"`
 	Namespace     string            `json:"namespace,omitempty"`
@@ -103,20 +104,24 @@ const (
 )
 
 type Scenario struct {
-	Procs     []ProcSpec `json:"procs"`
-	Ordered   bool       `json:"ordered,omitempty"`
-	Strict    bool       `json:"strict,omitempty"`
-	LogLength int        `json:"log_length,omitempty"`
-	ToRun     []string   `json:"to_run,omitempty"`
-	NoDeps    bool       `json:"no_deps,omitempty"`
+	Procs   []ProcSpec `json:"procs"`
+	Ordered bool       `json:"ordered,omitempty"`
+	// Top is raw YAML inserted at project level (global environment, env_cmds, vars, log settings).
+	Top       string   `json:"top,omitempty"`
+	Strict    bool     `json:"strict,omitempty"`
+	LogLength int      `json:"log_length,omitempty"`
+	ToRun     []string `json:"to_run,omitempty"`
+	NoDeps    bool     `json:"no_deps,omitempty"`
 	// PreHolds are armed before Run() starts.
 	PreHolds   []Step `json:"pre_holds,omitempty"`
 	Steps      []Step `json:"steps"`
 	TimeUnitMs int    `json:"time_unit_ms,omitempty"`
 	// FinishCode is the exit code used for commands still alive in the end game.
-	FinishCodes []int  `json:"finish_codes,omitempty"`
-	NoFinish    bool   `json:"no_finish,omitempty"`
-	Note        string `json:"note,omitempty"`
+	FinishCodes []int `json:"finish_codes,omitempty"`
+	NoFinish    bool  `json:"no_finish,omitempty"`
+	// FinishRounds is the number of end-game rounds of scripted exits before a shutdown is requested (default 3).
+	FinishRounds int    `json:"finish_rounds,omitempty"`
+	Note         string `json:"note,omitempty"`
 }
 
 func (s *Scenario) Spec(name string) *ProcSpec {
@@ -133,9 +138,12 @@ func q(s string) string {
 }
 
 // YAML renders process specs as a process-compose file.
-func YAML(procs []ProcSpec, strict bool, logLength int) string {
+func YAML(procs []ProcSpec, strict bool, logLength int, top ...string) string {
 	var b strings.Builder
 	b.WriteString("version: \"0.5\"\n")
+	for _, t := range top {
+		b.WriteString(t)
+	}
 	if strict {
 		b.WriteString("is_strict: true\n")
 	}
@@ -161,6 +169,8 @@ func YAML(procs []ProcSpec, strict bool, logLength int) string {
 		}
 		if p.BadDir {
 			b.WriteString("    working_dir: /nonexistent/verif-bad-dir\n")
+		} else if p.WorkingDir != "" {
+			fmt.Fprintf(&b, "    working_dir: %s\n", q(p.WorkingDir))
 		}
 		if p.Replicas > 0 {
 			fmt.Fprintf(&b, "    replicas: %d\n", p.Replicas)
